@@ -213,6 +213,11 @@ func composeCardDAV(r *rt.Rand, hrefPool []string) (name, body string) {
 		otherProps += `<A:address-data><A:allprop/><A:prop name="FN"/></A:address-data>`
 		f = good
 	}
+	if limit == "" && r.Chance(0.4) {
+		// a VALID limit next to the poison (none, one, as many as can be said)
+		limit = `<A:limit><A:nresults>` + rt.Pick(r, []string{"0", "1", "5", "9223372036854775807", "9223372036854775808", "18446744073709551615"}) + `</A:nresults></A:limit>`
+		what += "+limit"
+	}
 	if r.Chance(0.4) && what != "filter-test" {
 		// a valid neighbour before or after the poisoned prop-filter
 		if r.Chance(0.5) {
